@@ -223,6 +223,37 @@ def nest1 (ls : List Line) : Except Err (Forest × Bool) :=
   | .error e => .error e
   | .ok (t, _, s) => .ok (t, s)
 
+def Forest.isNil : Forest → Bool
+  | .nil => true
+  | _ => false
+
+/-- `wf c t`: `t` is a possible complete content of a block opened in context `c`: every
+    statement is accepted by its block, every block is closed by its valid END line or by
+    the line carrying its DO label, no earlier line would close it, and no DO label is
+    shared with the enclosing DO.  (Top level: closed by end of input.) -/
+def wf (c : Ctx) : Forest → Bool
+  | .nil => c.kind == .top
+  | .leaf l nx =>
+    !shared c l &&
+      (if endValid c l then nx.isNil
+       else match l.body with
+         | .smp cat => allowedSimple c.kind cat && (if hit c l then nx.isNil else wf c nx)
+         | _ => false)
+  | .if1 l nx =>
+    !shared c l && !endValid c l && l.body == .ifs && allowedIf c.kind
+      && (if hit c l then nx.isNil else wf c nx)
+  | .blk l kids nx =>
+    !shared c l && !endValid c l
+      && (match l.body with
+          | .opn k name el => allowedOpen c.kind k && wf (childCtx c k name el) kids
+          | _ => false)
+      && (if hit c l then nx.isNil else wf c nx)
+
+/-- a whole source whose blocks are all properly ended -/
+def WellEnded (t : Forest) : Prop := wf topCtx t = true
+
+instance (t : Forest) : Decidable (WellEnded t) := by unfold WellEnded; infer_instance
+
 /-- number of blocks closed by end of input instead of an END / label line (each logs
     "failed to find the end of block") -/
 def lastIsNil : Forest → Bool
